@@ -14,7 +14,7 @@ func init() {
 			"(start/end times moved into the past and future, sub-distributors replaced, shares changed), injected and natural bank failures with persistent patterns, node crashes, and export-and-restart from the exported genesis mid-run; " +
 			"oracle: no panic escapes BeginBlock/EndBlock through the repository's code, and a restart from exported genesis initialises and keeps producing blocks. non-trivial = at least one parameter update was applied or one export-restart/fault fired; " +
 			"distinct = hash of configuration shapes, faults fired, probes and outcome",
-		Quick:      Tier{Runs: 300, BudgetSec: 55},
+		Quick:      Tier{Runs: 1000, BudgetSec: 55},
 		Thorough:   Tier{Runs: 20000, BudgetSec: 780},
 		RunSeed:    c10RunSeed,
 		Replay:     c10Replay,
